@@ -26,3 +26,16 @@ Goal True. idtac "@@OBL c17_pending". Abort.
 Lemma c17_sinks_nonempty : existsb (fun r => String.eqb (fst (fst r)) "loginHandler" && String.eqb (cls3 r) "filtered") redirect_sinks = true.
 Proof. vm_compute. reflexivity. Qed.
 Goal True. idtac "@@OBL c17_sinks_nonempty". Abort.
+
+(* the destination function (getLoginDestination and the package functions it hands the request to) uses the
+   request only through its form (FormValue / Form / ParseForm; the method, the context and the peer address carry no
+   destination) — the tie for Model.DestReq.req_destination, which
+   is a function of the form/query channel alone.  A read of a cookie, a header, the URL or the body, or the
+   request handed to something outside the package ("escapes"), fails. *)
+Definition c17_read_classes : list string := ["form"; "method"; "context"; "remote"].
+Lemma c17_filter_reads : forallb (fun r => existsb (String.eqb (cls3 r)) c17_read_classes) destination_reads = true.
+Proof. vm_compute. reflexivity. Qed.
+Goal True. idtac "@@OBL c17_filter_reads". Abort.
+Lemma c17_filter_reads_nonempty : existsb (fun r => String.eqb (cls3 r) "form") destination_reads = true.
+Proof. vm_compute. reflexivity. Qed.
+Goal True. idtac "@@OBL c17_filter_reads_nonempty". Abort.
